@@ -5,7 +5,7 @@ open Sdc Sdc.Tls
 /-! model driver for C19.
   `sites pT pS pA cM cS cA ssl` -> scheme/host of every site, accept flag, client/server TLS flags
        (pT,pA,cA ∈ 0|1; pS,cS ∈ own|plain|tls; cM ∈ none|optional|enforced; ssl ∈ T|F|N = `is_ssl_connection`)
-  `crun mode ev…` (ev ∈ c1|c0|g<netloc>|s) -> final `is_ssl_connection` and TLS flags of the clients created
+  `crun mode ev…` (ev ∈ c1|c0|cx|g<netloc>|s) -> final `is_ssl_connection` and TLS flags of the clients created
   `verify server ca` -> verify mode -/
 
 def parseBool : String → Option Bool
@@ -57,8 +57,9 @@ def showVerify : Verify → String
 def b01 (b : Bool) : String := if b then "1" else "0"
 
 def parseEv (w : String) : Option CEv :=
-  if w == "c1" then some (.connect true)
-  else if w == "c0" then some (.connect false)
+  if w == "c1" then some (.connect .ok)
+  else if w == "c0" then some (.connect .sslError)
+  else if w == "cx" then some (.connect .otherError)
   else if w == "s" then some .stop
   else if w.startsWith "g" then (w.drop 1).toNat?.map .getClient
   else none
